@@ -105,12 +105,16 @@ def bounded(tier, seed):
     out.append(run_cases("dssr-documents", dcases, A.check_dssr, lambda c: True,
                          "DSSR JSON documents generated from a structure's residue names: valid/invalid/dunder LW values, unresolvable names at the ends and in the middle of stacks, missing keys, multi-model wrapper",
                          f"{len(dcases)} documents", sig=lambda c: f"{os.path.basename(c[0])}:{c[1]}", relates="parse_dssr_output|match_dssr"))
+    tcases = [(paths[k % len(paths)], rng.randrange(10 ** 9), rng.randint(5, 40)) for k in range(12 if tier == "quick" else 150)] if paths else []
+    out.append(run_cases("tool-run", tcases, A.check_tool, lambda c: True,
+                         "adapter.main in-process (--tool fr3d, -j) on a corpus structure with a generated FR3D listing: the interaction lists of the JSON it writes are what the "
+                         "listing denotes, category by category, in order", f"{len(tcases)} runs", sig=lambda c: f"{os.path.basename(c[0])}:{c[1]}:{c[2]}", relates="main|parse_fr3d_output"))
     return out
 
 
 def replay(inp):
     c = inp["case"]
-    f = {"labels-exhaustive": A.check_label, "labels-extra": A.check_label, "listings": lambda c: A.check_listing(tuple(c)),
+    f = {"tool-run": lambda c: A.check_tool(tuple(c)), "labels-exhaustive": A.check_label, "labels-extra": A.check_label, "listings": lambda c: A.check_listing(tuple(c)),
          "dssr-documents": lambda c: A.check_dssr(tuple(c))}[inp["check"]]
     errs = f(c)
     return {"fails": bool(errs), "errors": errs[:3]}
